@@ -180,9 +180,13 @@ class Message:
                             break
                     break
         try:
-            return return_type(hdr)
+            answer = return_type(hdr)
         except NameError:
-            return Message(hdr)
+            answer = Message(hdr)
+        # answer classes apply their own default flags when instantiated; the
+        # answer carries the proxiable bit of the request it answers
+        answer.header.is_proxyable = self.header.is_proxyable
+        return answer
 
     @classmethod
     def from_bytes(cls, msg_data: bytes, plain_msg: bool = False) -> _AnyMessageType:
